@@ -353,7 +353,7 @@ func TestVerifC04Admin(t *testing.T) {
 		for l, tb := range tables {
 			if len(tb) == 0 {
 				fmt.Printf("VERIF-INCONCLUSIVE: no routes found on the live %s engine\n", l)
-				t.Fatalf("harness: cannot read the route table of %s", l)
+				t.Fatalf("VERIF-INCONCLUSIVE: harness: cannot read the route table of %s", l)
 			}
 		}
 		isKnown := func(l, m, p string) bool {
